@@ -21,7 +21,8 @@ func init() {
 			"NOT decided: the arithmetic itself (off-by-one constants, token.File line-info semantics)." +
 			" R2 also: no uncounted front cut between the header line and the validated name." +
 			" R6 positions are resolved by the FileSet." +
-			" R2 also: a diagnostic positioned at the current token (metaParser.errf) quotes only the current token.",
+			" R2 also: a diagnostic positioned at the current token (metaParser.errf) quotes only the current token." +
+			" R7 every assignment of the splitter's text is content[startOffset:offset] or nil, of its pos file.Pos(startOffset) or NoPos.",
 		Trusted:     commonTrusted,
 		Assumptions: commonAssumptions,
 	})
@@ -38,6 +39,7 @@ func runC19(r *an.Run) {
 	patchBytesUnaltered(r, "R5-positions-are-offsets-into-the-users-file")
 	positionsReadBeforeStrip(r, "R3-line-map")
 	positionsResolvedByTheFileSet(r, "R6-positions-are-resolved-by-the-fileset")
+	splitterPositionsFollowTheOffsets(r, "R7-the-splitters-text-and-position-follow-its-offsets")
 }
 
 var positionedHelpers = map[string]string{
